@@ -198,6 +198,9 @@ mix24 (const int32_t * in, uint32_t stride, int32_t * u, int32_t * v, int32_t nu
 				l = in [0] >> 8 ;
 				r = in [1] >> 8 ;
 				in += stride ;
+
+				u [j] = l ;
+				v [j] = r ;
 			}
 		}
 	}
